@@ -156,6 +156,7 @@ Definition is_valid_ipv6 (s : str) : ares :=
     let bad_scope := match scope with
                      | None => false
                      | Some sc => (zlen sc <? scope_min)%Z || (zlen sc >? scope_max)%Z
+                                  || existsb (N.eqb scope_forbidden) sc
                      end in
     if bad_scope then AOk false else guard ipv6_caught (netaddr_valid_ipv6 addr)
   end.
@@ -189,8 +190,18 @@ Definition is_valid_ipv6_cidr (net6 : ares) (s : str) : ares :=
   | ARaise e => if caught v6cidr_caught e then AOk false else ARaise e
   end.
 
-(* is_valid_mac (str argument): truthiness of re.match(m, address.lower()) *)
-Definition is_valid_mac (s : str) : bool := re_matchb mac_re (py_lower s).
+(* re.match(body + "\\Z", s): the backtracking matcher of Base/Regex.v run with the
+   continuation "the rest of the subject is empty" *)
+Definition re_match_eos (r : re) (s : str) : bool :=
+  match m (N * groups) r s 0 [] (fun s' p' g' => match s' with [] => Some (p', g') | _ => None end) with
+  | Some _ => true
+  | None => false
+  end.
+
+(* is_valid_mac (str argument): truthiness of re.match(m, address.lower()); the translator
+   splits a trailing \\Z off the pattern (mac_eos) *)
+Definition is_valid_mac (s : str) : bool :=
+  if mac_eos then re_match_eos mac_re (py_lower s) else re_matchb mac_re (py_lower s).
 
 (* _is_int_in_range and its three users *)
 Definition is_int_in_range (v : pyval) (lo hi : Z) : res bool :=
